@@ -8,13 +8,13 @@ tails, duplicates and equal-hash subtrees are the norm rather than measure zero.
 """
 import random
 
-SIZES = {'u8': 1, 'u16': 2, 'u32': 4, 'u64': 8, 'u128': 16, 'u256': 32, 'h256': 32, 'pair': 16, 'quad': 32, 'var': None, 'nl': None, 'fu64': 8}
-PF = {'u8': 32, 'u16': 16, 'u32': 8, 'u64': 4, 'u128': 2, 'u256': 1, 'fu64': 4}
+SIZES = {'u8': 1, 'u16': 2, 'u32': 4, 'u64': 8, 'u128': 16, 'u256': 32, 'h256': 32, 'pair': 16, 'quad': 32, 'var': None, 'nl': None, 'fu64': 8, 'bu16': 2}
+PF = {'u8': 32, 'u16': 16, 'u32': 8, 'u64': 4, 'u128': 2, 'u256': 1, 'fu64': 4, 'bu16': 16}
 USIZE_MAX = 2 ** 64 - 1
 SMALL_NS = [1, 2, 3, 4, 5, 7, 8, 9, 16, 17, 32, 33, 64]
 ALL_NS = SMALL_NS + [1024, 2 ** 40]
 DEEP_NS = [2 ** 48, 2 ** 49, 2 ** 63]
-KINDS = [k for k in SIZES if k not in ('fu64', 'quad')]      # quad: see extra_kind()      # fu64 (fault injection) is used by the `fault` family only
+KINDS = [k for k in SIZES if k not in ('fu64', 'quad', 'bu16')]      # quad: see extra_kind()      # fu64 (fault injection) is used by the `fault` family only
 MAPS = ['max', 'vec', 'bt']
 
 
